@@ -328,8 +328,10 @@ func (p *PHYPayload) DecryptJoinAcceptPayload(key AES128Key) error {
 		return errors.New("lorawan: MACPayload must be of type *DataPayload")
 	}
 
-	// append MIC to the ciphertext since it is encrypted too
-	ct := append(dp.Bytes, p.MIC[:]...)
+	// append MIC to the ciphertext since it is encrypted too (the capacity of
+	// the slice expression is limited to its length, so that the append never
+	// writes into spare capacity of the caller's buffer)
+	ct := append(dp.Bytes[:len(dp.Bytes):len(dp.Bytes)], p.MIC[:]...)
 
 	if len(ct)%16 != 0 {
 		return errors.New("lorawan: plaintext must be a multiple of 16 bytes")
